@@ -63,8 +63,9 @@ type BlockExecutor struct {
 	quit          chan struct{}  // blockchain quit channel
 	procInterrupt atomic.Bool    // interrupt signaler for block processing
 
-	// cache the verification results over a single height
-	cache map[common.Hash]struct{}
+	// cache the verification results over a single height. Keyed by the block itself:
+	// the header hash does not identify a block (same header, other body).
+	cache map[*types.Block]struct{}
 }
 
 // NewBlockExecutor returns a new BlockExecutor with a NopEventBus.
@@ -77,7 +78,7 @@ func NewBlockExecutor(stateStore Store, logger log.Logger, evpool EvidencePool, 
 		quit:   make(chan struct{}),
 
 		logger: logger,
-		cache:  make(map[common.Hash]struct{}),
+		cache:  make(map[*types.Block]struct{}),
 	}
 }
 
@@ -91,15 +92,14 @@ func (blockExec *BlockExecutor) SetEventBus(b *types.EventBus) {
 // Validation does not mutate state, but does require historical information from the stateDB,
 // ie. to verify evidence from a validator at an old height.
 func (blockExec *BlockExecutor) ValidateBlock(state LatestBlockState, block *types.Block) error {
-	hash := block.Hash()
-	if _, ok := blockExec.cache[hash]; ok {
+	if _, ok := blockExec.cache[block]; ok {
 		return nil
 	}
 
 	if err := validateBlock(blockExec.evpool, blockExec.store, state, block); err != nil {
 		return err
 	}
-	blockExec.cache[hash] = struct{}{}
+	blockExec.cache[block] = struct{}{}
 	return nil
 }
 
@@ -147,7 +147,7 @@ func (blockExec *BlockExecutor) ApplyBlock(state LatestBlockState, blockID types
 	fail.Fail() // XXX
 
 	// clear the verification cache
-	blockExec.cache = make(map[common.Hash]struct{})
+	blockExec.cache = make(map[*types.Block]struct{})
 
 	// Events are fired after everything else.
 	// NOTE: if we crash between Commit and Save, events wont be fired during replay
